@@ -10,6 +10,13 @@ Driver/C06 — runs Model/SaveProtocols over Spec/Fs on the request stream of ha
   jload <hex|-|none>                            -> [s1,s2,…]   `ExtractorCompactorBackup::load` on that file content
   lload <name>:<0|1>,…                          -> fresh | loaded <gen> | err   `run_cycle`'s load step on a directory
                                                    listing (1 = `lru_file::deserialize` accepts the file)
+
+File contents are given as hex, or (disk-cache values from 128 KiB on) as `@<len>:<seed>:<mlen>` =
+the last `len` bytes of the first `mlen` bytes of the harness's value stream for `seed`
+(`harness/src/lib.rs` `Rng`: splitmix64 start, xorshift64* steps, bits 32..39 of every output): the
+values of one size-class family (c-1, c, c+1 bytes) are tails of ONE master list, which is built
+once and shared (a 16 MiB value is a 16 Mi-cell list). The `write … LEN FNV` of the response ties
+the stream generated here to the bytes the real code wrote.
 -/
 import Driver.Common
 import Cascette.Spec.Fs
@@ -26,6 +33,66 @@ structure St where
   trace : List (Call String) := []
   jver : Nat := 1
   jmax : Nat := 1023
+  /-- the last generated value stream: seed, length, bytes -/
+  master : Option (Nat × Nat × Bytes) := none
+
+/-! ### the harness's value stream (`Rng::new(seed)`, `Rng::byte`) -/
+
+def rngNew (seed : UInt64) : UInt64 :=
+  let z := seed + 0x9E3779B97F4A7C15
+  let z := (z ^^^ (z >>> 30)) * 0xBF58476D1CE4E5B9
+  let z := (z ^^^ (z >>> 27)) * 0x94D049BB133111EB
+  let z := z ^^^ (z >>> 31)
+  if z == 0 then 0x123456789ABCDEF1 else z
+
+def rngStep (x : UInt64) : UInt64 :=
+  let x := x ^^^ (x >>> 12)
+  let x := x ^^^ (x <<< 25)
+  x ^^^ (x >>> 27)
+
+def streamArr : Nat → UInt64 → ByteArray → ByteArray
+  | 0, _, acc => acc
+  | n + 1, x, acc =>
+    let x := rngStep x
+    streamArr n x (acc.push ((x * 0x2545F4914F6CDD1D) >>> 32).toUInt8)
+
+def arrToBytes (a : ByteArray) : Nat → Bytes → Bytes
+  | 0, acc => acc
+  | i + 1, acc => arrToBytes a i (BitVec.ofNat 8 (a.get! i).toNat :: acc)
+
+/-- the first `n` bytes of the stream for `seed`. -/
+def stream (seed n : Nat) : Bytes :=
+  arrToBytes (streamArr n (rngNew seed.toUInt64) (ByteArray.emptyWithCapacity n)) n []
+
+/-- hex → bytes without deep recursion (index files with a 64 KiB alignment gap are long). -/
+def parseHexFast (s : String) : Option Bytes :=
+  if s == "-" then some [] else
+  let rec go : List Char → Bytes → Option Bytes
+    | [], acc => some acc.reverse
+    | [_], _ => none
+    | a :: b :: rest, acc =>
+      match hexDigit a, hexDigit b with
+      | some x, some y => go rest (BitVec.ofNat 8 (16 * x + y) :: acc)
+      | _, _ => none
+  go s.toList []
+
+/-- a file content parameter: hex, or `@len:seed:mlen`; returns the (possibly new) master cache. -/
+def contentOf (st : St) (v : String) : Option (St × Bytes) :=
+  if v.startsWith "@" then
+    match ((v.drop 1).toString.splitOn ":").map String.toNat? with
+    | [some len, some seed, some mlen] =>
+      if len > mlen then none else
+      match st.master with
+      | some (sd, ml, bs) =>
+        if sd = seed ∧ ml = mlen then some (st, bs.drop (mlen - len))
+        else
+          let bs := stream seed mlen
+          some ({ st with master := some (seed, mlen, bs) }, bs.drop (mlen - len))
+      | none =>
+        let bs := stream seed mlen
+        some ({ st with master := some (seed, mlen, bs) }, bs.drop (mlen - len))
+    | _ => none
+  else (parseHexFast v).map fun b => (st, b)
 
 def fnv64 (b : Bytes) : UInt64 :=
   b.foldl (fun h x => (h ^^^ x.toNat.toUInt64) * 0x100000001b3) 0xcbf29ce484222325
@@ -106,35 +173,35 @@ def asciiOfHex (h : String) : Option String :=
   (parseHexNat h).map fun l => String.ofList (l.map Char.ofNat)
 
 /-- the trace of one save, from the model parameters and the current directory. -/
-def modelOps (st : St) (p : List String) : Option (List (Op String)) :=
+def modelOps (st : St) (p : List String) : Option (St × List (Op String)) :=
   match p with
   | "res" :: rest =>
-    match (kv rest "name").bind asciiOfHex, kv rest "dirty", (kv rest "data").bind parseHex with
+    match (kv rest "name").bind asciiOfHex, kv rest "dirty", (kv rest "data").bind parseHexFast with
     | some name, some dirty, some bytes =>
-      some (residencySave (dirty == "1") (String.ofList (withExtTmp name.toList)) name bytes)
+      some (st, residencySave (dirty == "1") (String.ofList (withExtTmp name.toList)) name bytes)
     | _, _, _ => none
   | "lru" :: rest =>
-    match (kv rest "gen").bind String.toNat?, (kv rest "prev").bind String.toNat?, (kv rest "data").bind parseHex with
+    match (kv rest "gen").bind String.toNat?, (kv rest "prev").bind String.toNat?, (kv rest "data").bind parseHexFast with
     | some g, some pv, some bytes =>
-      some (lruCheckpoint (fun g => String.ofList (lruName g)) (fun g => String.ofList (lruTmp g)) g pv bytes)
+      some (st, lruCheckpoint (fun g => String.ofList (lruName g)) (fun g => String.ofList (lruTmp g)) g pv bytes)
     | _, _, _ => none
   | "dc" :: rest =>
-    match (kv rest "sub").bind String.toNat?, (kv rest "key").bind parseHexNat, (kv rest "data").bind parseHex with
-    | some sub, some keyBytes, some bytes =>
+    match (kv rest "sub").bind String.toNat?, (kv rest "key").bind parseHexNat, (kv rest "data").bind (contentOf st) with
+    | some sub, some keyBytes, some (st, bytes) =>
       let key := keyBytes.map Char.ofNat
       let dirs := subDirs sub (keyHash keyBytes)
-      some (diskCacheWrite (String.ofList (dirs ++ withExtTmp key)) (String.ofList (dirs ++ key)) bytes)
+      some (st, diskCacheWrite (String.ofList (dirs ++ withExtTmp key)) (String.ofList (dirs ++ key)) bytes)
     | _, _, _ => none
   | "jrn" :: rest =>
     match (kv rest "seg").bind String.toNat? with
     | some seg =>
       let name := "extract_bu"
-      some (journalRecord name (journalIsEmpty st.dir name) (BitVec.ofNat 8 st.jver) st.jmax seg)
+      some (st, journalRecord name (journalIsEmpty st.dir name) (BitVec.ofNat 8 st.jver) st.jmax seg)
     | none => none
   | _ => none
 
 /-- the calls of one save, from the model parameters and the current directory. -/
-def modelTrace (st : St) (p : List String) : Option (List (Call String)) :=
+def modelTrace (st : St) (p : List String) : Option (St × List (Call String)) :=
   match p with
   | "idx" :: rest =>
     let ver := ((kv rest "v").bind String.toNat?).getD 1
@@ -142,14 +209,14 @@ def modelTrace (st : St) (p : List String) : Option (List (Call String)) :=
       match t.splitOn "=" with
       | [b, h] =>
         if b == "v" || b.startsWith "o" then none else
-        match parseHexNat b, parseHex h with
+        match parseHexNat b, parseHexFast h with
         | some [bn], some bytes =>
           let outs := ((kv rest ("o" ++ b)).map fun o => (o.splitOn ",").filterMap attemptOf).getD []
           some ({ tmp := String.ofList (idxTmp bn ver), fin := String.ofList (idxName bn ver), bytes := bytes, outcomes := outs } : BucketSave String)
         | _, _ => none
       | _ => none
-    some (saveAllCalls buckets)
-  | _ => (modelOps st p).map fun t => t.map Call.did
+    some (st, saveAllCalls buckets)
+  | _ => (modelOps st p).map fun (st, t) => (st, t.map Call.did)
 
 def variantOf : String → Option Variant
   | "asis" => some .asis
@@ -162,17 +229,21 @@ def handle (st : St) (toks : List String) : St × String :=
   | "begin" :: routine :: rest =>
     ({ routine := routine,
        jver := ((kv rest "jver").bind String.toNat?).getD 1,
-       jmax := ((kv rest "jmax").bind String.toNat?).getD 1023 }, "ok")
+       jmax := ((kv rest "jmax").bind String.toNat?).getD 1023,
+       master := st.master }, "ok")
   | "step" :: rest =>
     let params := (rest.dropWhile (· ≠ "|")).drop 1
     match modelTrace st params with
     | none => (st, "bad-op")
-    | some t =>
+    | some (st, t) =>
       let t := canon t
       let names := ((effOps t).flatMap opNames).foldl (fun acc n => insertSorted n acc) st.names
       let after := run st.dir (effOps t)
       -- the process has exited and the history goes on: everything it wrote is on disk
-      let settled : Dir String := fun n => (after n).map fun f => { f with synced := f.data.length }
+      -- (the lengths are computed once per file, as data, not per lookup: a value can be a 16 Mi-cell list)
+      let files : List (String × File) := names.filterMap fun n =>
+        (after n).map fun f => (n, { f with synced := f.data.length })
+      let settled : Dir String := fun n => (files.find? fun p => p.1 == n).map (·.2)
       ({ st with before := st.dir, trace := t, names := names, dir := settled }, callsText st.dir t)
   | ["pre", ops] =>
     -- what the saving process's own reopen did before the save (run_cycle's scan_directory)
@@ -181,7 +252,7 @@ def handle (st : St) (toks : List String) : St × String :=
       | ["unlink", n] => step d (.unlink n)
       | ["put", n, h] =>
         -- an earlier, completed save of the worker's history (flush_all_updates): durable content
-        match (if h == "-" then some [] else parseHex h) with
+        match parseHexFast h with
         | some b => upd d n (some ⟨b, b.length⟩)
         | none => d
       | _ => d) st.dir
@@ -205,7 +276,7 @@ def handle (st : St) (toks : List String) : St × String :=
     | _, _, _ => (st, "bad-op")
   | ["jload", c] =>
     let content : Option (Option Bytes) :=
-      if c == "none" then some none else if c == "-" then some (some []) else (parseHex c).map some
+      if c == "none" then some none else if c == "-" then some (some []) else (parseHexFast c).map some
     match content with
     | some c => (st, "[" ++ ",".intercalate ((journalLoad (BitVec.ofNat 8 st.jver) c).map toString) ++ "]")
     | none => (st, "bad-op")
